@@ -1046,9 +1046,19 @@ type responseWriter struct {
 	// trailers before writing the first bytes of data (like Connect
 	// and REST unary).
 	buf *bytes.Buffer
+	// receives header mutations made by the handler after the end was written
+	discarded http.Header
 }
 
 func (w *responseWriter) Header() http.Header {
+	if w.endWritten {
+		// The end of the RPC has already been sent to the client. Whatever the
+		// handler still sets (e.g. its own trailers) must not reach the client.
+		if w.discarded == nil {
+			w.discarded = make(http.Header)
+		}
+		return w.discarded
+	}
 	return w.delegate.Header()
 }
 
